@@ -78,6 +78,17 @@ PROPS = {
  'C19': dict(pats=[r'^(roaring64\.BSI|bsi\.BSI|roaring64\.\w*BSI\w*|bsi\.\w*BSI\w*)\.?(\w*)$'], note='Structure-level contracts of the bit-sliced index updates.', filt='update'),
  'C20': dict(pats=[r'^(roaring64\.BSI|bsi\.BSI)\.(Compare\w+|BatchEqual\w*|MinMax\w*|Sum\w*|Transpose\w*|IntersectAndTranspose\w*)$'], note='Structure-level contracts of the bit-sliced index queries.'),
 }
+WHY_AGG = "they use container/heap, goroutines, channels and sync.WaitGroup, which are outside the Go subset the verifier handles"
+BOUNDED = {
+ 'C11': [dict(pkg='.', file='bounded/c11_aggregates_test.go', run='TestBoundedC11', why='FastOr/FastAnd/HeapOr/HeapXor/ParOr/ParAnd/ParHeapOr/AndAny: ' + WHY_AGG,
+              bound='all lists of 0..3 bitmaps (with repetition, every order) from a pool of 9 boundary bitmaps x worker counts 0..3, result compared with the fold of the binary operation and validated')],
+ 'C07': [dict(pkg='.', file='bounded/c11_aggregates_test.go', run='TestBoundedC07', why='aggregates FastOr..ParHeapOr: ' + WHY_AGG,
+              bound='same enumeration as C11; every result is mutated (Add/Remove/RemoveRange) and all pool bitmaps are compared with their snapshots'),
+         dict(pkg='roaring64', file='bounded/c17_aggregates64_test.go', run='TestBoundedC07r64', why='roaring64 FastOr/FastAnd/ParOr: ' + WHY_AGG,
+              bound='all lists of 0..3 bitmaps from a pool of 7 boundary 64-bit bitmaps x worker counts 0..3; results mutated, pool compared with snapshots')],
+ 'C17': [dict(pkg='roaring64', file='bounded/c17_aggregates64_test.go', run='TestBoundedC17', why='roaring64 ParOr (FastOr/FastAnd for comparison): ' + WHY_AGG,
+              bound='all lists of 0..3 bitmaps from a pool of 7 boundary 64-bit bitmaps x worker counts 0..3, compared with the fold of Or/And')],
+}
 C19_EXCL = re.compile(r'\.(Compare\w+|BatchEqual\w*|MinMax\w*|Sum\w*|Transpose\w*|IntersectAndTranspose\w*)$')
 
 
@@ -147,6 +158,8 @@ def main():
             nsk += len(sk)
         if fl and nob > 0:
             out[pid] = {'title': title(pid), 'functions': fl, 'trusted_base': [], 'note': cfg['note']}
+            if pid in BOUNDED:
+                out[pid]['bounded_tests'] = BOUNDED[pid]
         report.append(f'{pid}: {len(fl)} functions, {nob} obligations claimed, {nsk} left undecided')
     out['_lemmas'] = {'title': 'lemma table (skip lists for lemmas pulled in by use clauses)', 'functions': lemmas, 'trusted_base': [], 'note': ''}
     json.dump(out, open(os.path.join(VERIF, 'spec', 'properties.json'), 'w'), indent=1)
